@@ -13,10 +13,15 @@ BASELINE = (
 )
 
 checks, na = [], []
+# properties whose module exists but is temporarily not registered (reason)
+HOLD = {'C08': 'check being updated to follow fix commit cf0046b (Q_elements float32); not claimed until it passes again'}
 for p in ALL:
     path = os.path.join(VERIF, 'harness', 'props', p.lower() + '.py')
     if not os.path.exists(path):
         na.append({'property_id': p, 'reason': 'check not built yet in this round (design in DESIGN.md section 6); not claimed'})
+        continue
+    if p in HOLD:
+        na.append({'property_id': p, 'reason': HOLD[p]})
         continue
     m = importlib.import_module(f'harness.props.{p.lower()}')
     if getattr(m, 'NOT_CLAIMED', None):
